@@ -20,8 +20,8 @@ TWOFOLDS = {"about a": (1, -1, -1), "about b": (-1, 1, -1), "about c": (-1, -1, 
 def tasks(tier):
     n = 2 if tier == "quick" else 3
     t = [("t_scatter", {"n_grains": n, "axis": ax}) for ax in AXES]
-    t += [("t_invariants_conjugation", {}), ("t_pgr", {"axis": "a"}), ("t_pgr", {"axis": "c"}), ("t_bingham", {"axis": "a"}), ("t_bingham", {"axis": "b"}),
-          ("t_coaxial", {}), ("t_finite_strain", {}), ("t_simple_shear_angle", {})]
+    t += [("t_invariants_conjugation", {})] + [("t_pgr", {"axis": ax}) for ax in AXES] + [("t_bingham", {"axis": ax}) for ax in AXES]
+    t += [("t_coaxial", {}), ("t_coaxial", {"axis1": "a", "axis2": "c"}), ("t_coaxial", {"axis1": "c", "axis2": "b"}), ("t_finite_strain", {}), ("t_simple_shear_angle", {})]
     return t
 
 
@@ -159,12 +159,12 @@ def t_pgr(sess, axis):
         rec = eig.calls[0]
         # PSD-ness of the scatter matrix is decided in t_scatter; its eigenvalues are therefore >= 0
         sym.ctx().assume((rec["lam"][0] >= 0).z3())
-        return out, rec
+        return out, rec, stats._scatter_matrix(A, AXES[axis]), len(eig.calls)
 
     with np_installed(diag, stats), patched(*_diag_env(eig)):
         paths, _ = sym.explore(fn)
     p = only_path(sess, paths)
-    (P, G, Rr), rec = p.value
+    (P, G, Rr), rec, Sref, ncalls = p.value
     tag = f"pgr[{axis}]"
     for ob in p.obligations:
         sess.prove(f"{tag}: {ob.kind} cannot happen at `{(ob.site or ('', '?'))[1]}`", ob.pc, ob.cond)
@@ -175,7 +175,8 @@ def t_pgr(sess, axis):
                z3.And(eq(P * tot, l2 - l1), eq(G * tot, 2 * (l1 - l0)), eq(Rr * tot, 3 * l0)))
     sess.prove(f"{tag}: P, G, R each in [0, 1]", p.pc, z3.And(*[z3.And((v >= 0).z3(), (v <= 1).z3()) for v in (P, G, Rr)]))
     sess.prove(f"{tag}: P + G + R = 1", p.pc, eq(P + G + Rr, 1))
-    sess.prove(f"{tag}: eigenvalues are taken of the scatter matrix of the requested axis", p.pc, z3.BoolVal(rec["arg"].shape == (3, 3)))
+    sess.prove(f"{tag}: one eigenvalue computation, of the scatter matrix of the requested axis", p.pc,
+               z3.And(z3.BoolVal(rec["arg"].shape == (3, 3) and ncalls == 1), all_eq(stubs.lower_completed(rec["arg"]), stubs.lower_completed(Sref))))
     sample(sess, obligation="P, G, R", axis=axis, P=str(P)[:160])
 
 
@@ -224,31 +225,42 @@ def sym_sqrt_apps(p):
     return [(str(r), (args[0], r)) for args, r, _ in p.uf_apps.get("sqrt", [])]
 
 
-def t_coaxial(sess):
+def t_coaxial(sess, axis1=None, axis2=None):
     mods = pydrex_modules()
     diag, stats = mods["diagnostics"], mods["stats"]
     sess.encode(diag.coaxial_index)
     eig = stubs.EigLa()
+    kw = {} if axis1 is None else {"axis1": axis1, "axis2": axis2}
+    a1, a2 = (axis1 or "b"), (axis2 or "a")  # documented defaults: the "BA" index
 
     def fn():
         eig.calls.clear()
         qs, A = _grains(2)
-        ba = diag.coaxial_index(A)
+        ba = diag.coaxial_index(A, **kw)
         for rec in eig.calls:
             sym.ctx().assume((rec["lam"][0] >= 0).z3())
-        return ba, list(eig.calls)
+        return ba, list(eig.calls), stats._scatter_matrix(A, AXES[a1]), stats._scatter_matrix(A, AXES[a2])
 
     with np_installed(diag, stats), patched(*_diag_env(eig)):
         paths, _ = sym.explore(fn)
     p = only_path(sess, paths)
-    ba, calls = p.value
-    reach_shaped(sess, "coaxial: reach", p.pc)
+    ba, calls, S1, S2 = p.value
+    tag = "coaxial" if axis1 is None else f"coaxial[{axis1}, {axis2}]"
+    reach_shaped(sess, f"{tag}: reach", p.pc)
     # P + G > 0 for both axes <=> the scatter matrices are not exactly isotropic (l_max > l_min)
     noniso = [(c["lam"][2] > c["lam"][0]).z3() for c in calls]
     for ob in p.obligations:
-        sess.prove(f"coaxial: {ob.kind} cannot happen at `{(ob.site or ('', '?'))[1]}` (non-isotropic scatter matrices)", ob.pc + noniso, ob.cond)
-    sess.prove("coaxial index in [0, 1] whenever neither scatter matrix is exactly isotropic", p.pc + noniso, z3.And((ba >= 0).z3(), (ba <= 1).z3()))
-    sess.prove("coaxial index uses two eigen-decompositions (axis1 then axis2)", p.pc, z3.BoolVal(len(calls) == 2))
+        sess.prove(f"{tag}: {ob.kind} cannot happen at `{(ob.site or ('', '?'))[1]}` (non-isotropic scatter matrices)", ob.pc + noniso, ob.cond)
+    sess.prove(f"{tag}: index in [0, 1] whenever neither scatter matrix is exactly isotropic", p.pc + noniso, z3.And((ba >= 0).z3(), (ba <= 1).z3()))
+    sess.prove(f"{tag}: two eigen-decompositions (axis1 then axis2)", p.pc, z3.BoolVal(len(calls) == 2))
+    if len(calls) == 2:
+        sess.prove(f"{tag}: the decomposed matrices are the scatter matrices of axis1 = {a1} and axis2 = {a2}, in that order", p.pc,
+                   z3.And(all_eq(stubs.lower_completed(calls[0]["arg"]), stubs.lower_completed(S1)), all_eq(stubs.lower_completed(calls[1]["arg"]), stubs.lower_completed(S2))))
+        (l0, l1, l2), (m0, m1, m2) = calls[0]["lam"], calls[1]["lam"]
+        # P = l2 - l1, G = 2 (l1 - l0) (common factor 1/sum cancels): BA = (2 - P1/(G1+P1) - G2/(G2+P2)) / 2
+        P1, G1, P2, G2 = l2 - l1, 2 * (l1 - l0), m2 - m1, 2 * (m1 - m0)
+        sess.prove(f"{tag}: BA = (2 - P1/(G1 + P1) - G2/(G2 + P2))/2 with (P1, G1) of axis1 and (P2, G2) of axis2", p.pc + noniso,
+                   eq(2 * ba * (G1 + P1) * (G2 + P2), 2 * (G1 + P1) * (G2 + P2) - P1 * (G2 + P2) - G2 * (G1 + P1)))
 
 
 def t_finite_strain(sess):
